@@ -213,6 +213,14 @@ def field_alterations(orig):
         new['results'] = [[(rid, cbor2.dumps(msg))]]
 
     alts.append(('asb.source', {}, {bcb['num']: dict(btsd=asb_edit(set_source))}))
+
+    def set_source_lookalike(new):
+        # another spelling that a lenient reader takes for the same node: without (or with) the trailing slash
+        new['source'] = new['source'][:-1] if new['source'].endswith('/') and new['source'].count('/') == 3 else new['source'] + '/'
+
+    alts.append(('asb.source-lookalike', {}, {bcb['num']: dict(btsd=asb_edit(set_source_lookalike))}))
+    if pri['source'].endswith('/') and pri['source'].count('/') == 3:
+        alts.append(('pri.source-lookalike', dict(source=pri['source'][:-1]), {}))
     alts.append(('asb.scope', {}, {bcb['num']: dict(btsd=asb_edit(set_scope))}))
     alts.append(('cose.iv', {}, {bcb['num']: dict(btsd=asb_edit(set_iv))}))
     return alts
